@@ -138,7 +138,13 @@ def pairs_for(m, n, rich):
            (["i", [-1]], S(None, None, -1)), (["i", [0, m - 1][:m]], ["i", [n - 1, 0][:n]]), (S(None, None, None), ["i", list(range(n))[::-1]])]
     if rich:
         out += [(S(a, b, c), S(b, a, c)) for a in (None, 0, 1, -1) for b in (None, 2, -1) for c in (None, 1, 2, -1, -2)]
-    return out
+    seen, uniq = set(), []
+    for p in out:
+        key = (_sn(p[0]), _sn(p[1]))
+        if key not in seen:
+            seen.add(key)
+            uniq.append(p)
+    return uniq
 
 
 def cases(tier, seed):
